@@ -85,6 +85,7 @@ func TestC15(t *testing.T) {
 		refresh := []int{0, 1, 2, 3}[rapid.IntRange(0, 3).Draw(t, "refresh")]
 		pauseAt := rapid.IntRange(-1, 6).Draw(t, "pauseat")
 		manualRefreshAt := rapid.IntRange(-1, 6).Draw(t, "manualrefreshat") // explicit Refresh() after the n-th item was consumed
+		reseekAfterRefresh := rapid.IntRange(0, 2).Draw(t, "reseekafterrefresh") == 0
 		picker, pdesc := sched.DrawPicker(t, nmut+1, 500)
 		f.logf("c15 mm=%v stable=%d pre=%v mut=%v seek=%v/%d refresh=%d pause@%d manualrefresh@%d sched=%s", mm, nstable, pre, mscripts, useSeek, seekKey, refresh, pauseAt, manualRefreshAt, pdesc)
 
@@ -140,6 +141,19 @@ func TestC15(t *testing.T) {
 				if n == manualRefreshAt {
 					it.Refresh()
 					s.Yield(0)
+					if reseekAfterRefresh {
+						// re-position explicitly after the refresh: the scan continues from the first item >= k,
+						// which is reported (again, if k itself is still there)
+						it.Seek(w.item(k))
+						if !it.Valid() {
+							break
+						}
+						k2 := skiplist.IntFromItem(it.Get())
+						if k2 != k {
+							gets = append(gets, getRec{k2, s.Tick(), arrive})
+							readerCur = k2
+						}
+					}
 				}
 				arrive = s.Tick()
 				it.Next()
@@ -184,7 +198,7 @@ func TestC15(t *testing.T) {
 					rec := mutRec{insert: o.insert, key: k, call: s.Tick()}
 					th.InOp = true
 					if o.insert {
-						_, rec.ok = w.sl.Insert2(w.item(k), skiplist.CompareInt, nil, buf, levelFn(o.level), sts)
+						_, rec.ok = w.insert(k, buf, o.level, sts)
 					} else if !mm {
 						rec.ok = w.sl.Delete(w.item(k), skiplist.CompareInt, buf, sts)
 					} else {
@@ -332,8 +346,8 @@ func TestC15(t *testing.T) {
 				f.failf("bad-free", "allocator: %v", rep)
 			}
 			// the reader closed its iterator and every mutator finished: nothing unlinked may be left unfreed
-			if live := w.arena.LiveCount(); live != res.Level0Linked+2 {
-				f.failf("unlinked-not-freed", "at quiescence (iterator closed) the allocator holds %d live blocks, %d nodes are linked (+2 sentinels)", live, res.Level0Linked)
+			if live := w.arena.LiveCount(); live != 2*res.Level0Linked+2 {
+				f.failf("unlinked-not-freed", "at quiescence (iterator closed) the allocator holds %d live blocks, %d nodes (one item each, +2 sentinels) are linked", live, res.Level0Linked)
 			}
 		}
 		st.Case(f.desc(), cursorDeleted)
